@@ -31,7 +31,7 @@ SLOT_RE = re.compile(r"(\d+):(-?\d+):([0-9a-f]{4}|N):(\d+)\.(\d+):(-?\d+):(-?\d+
 
 def parse_op(seg):
     seg = seg.strip()
-    m = re.match(r"([a-z?]+)=(-?\d+)", seg)
+    m = re.match(r"([a-z0-9?]+)=(-?\d+)", seg)
     if not m:
         return None
     d = {"op": m.group(1), "rc": int(m.group(2)), "raw": seg}
@@ -137,6 +137,51 @@ def structured_cases(r):
     case(["kadd n=aa k=11 kl=32 h=22", "kadd n=bb k=11 kl=32 h=23", newc(r, "A", **base), "mkt A iv=01 j=0", "kdel n=aa", "mkt A iv=01 j=1",
           newc(r, "B", **base), "unl B $0", "unl B $1", "kdel n=bb", "unl B $1", "mkt A iv=02 j=2"])
     case(tk + [newc(r, "B", v=33, s="c02f", e=1), "flag B R0", "unl B $0", newc(r, "C", v=33, s="c02b", e=1), "unl C $0"])
+    # 11 TLS 1.3 decrypted-ticket parameters: age around the sealed lifetime, negative age, saturation, version / suite mismatch
+    ages = [0, 1, 999, 1000, 359000, 359999, 360000, 360999, 361000, 2**31 - 1, 2**31, 2**32 - 1, 2**32, 2**33 + 7]
+    ops = ["tick %d" % (2**34), newc(r, "A", v=34, s="1301", e=1)]
+    for life in (360, 0, 1, 604800, 2147482, 2147483, 2147484, 4294967295):
+        for age in ages + [life * 1000 - 1, life * 1000, life * 1000 + 999, life * 1000 + 1000]:
+            if 0 <= age: ops.append("t13v A v=34 s=1301 life=%d age=%d" % (life, age))
+    case(ops)
+    case([newc(r, "A", v=34, s="1301", e=1), "t13v A v=34 s=1301 life=360 age=0", "t13v A v=33 s=1301 life=360 age=0", "t13v A v=34 s=1302 life=360 age=0",
+          "t13v A v=34 s=1301 life=360 age=-5000", "tick 400000", "t13v A v=34 s=1301 life=360 age=360999", "t13v A v=34 s=1301 life=360 age=361000",
+          newc(r, "B", v=33, s="c02f", e=1), "t13v B v=33 s=c02f life=360 age=10", "t13v B v=34 s=c02f life=360 age=10"])
+    return C
+
+def shared_entry_cases(r):
+    """two or three live connections hold ONE cache entry (the registrant A plus resumed B [, C]); every
+    invalidating event hits one of them; resume attempts with the entry's id follow while the others are still
+    open, after each further close (all delete orders), and after everything closed.  Events:
+      sent    the server writes a fatal alert on X (sslEncodeResponse -> matrixClearSession(remove)), then deletes X
+      recv    X received a fatal alert / hit a local error: SSL_FLAGS_ERROR, then matrixSslDeleteSession
+      errupd  SSL_FLAGS_ERROR seen by a matrixUpdateSession while X stays open (closed later)
+      close   control: plain close without close_notify - not an invalidation, later resumptions are legitimate"""
+    import itertools
+    C = []
+    base = dict(v=33, s="c02f", e=1)
+    for nh in (2, 3):
+        holders = "ABC"[:nh]
+        for x in holders:
+            for ev in ("sent", "recv", "errupd", "close"):
+                others = [h for h in holders if h != x]
+                for order in itertools.permutations(others):
+                    for probe_secret_change in (0, 1):
+                        if probe_secret_change and ev != "close": continue
+                        ops = full_hs(r, "A", m="a1", r="%02x" % r.randrange(1, 255), **base) + ["save 0 A"]
+                        for h in holders[1:]:
+                            ops += [newc(r, h, m="00", **base), "sid %s #0" % h, "chr " + h]
+                        if ev == "sent": ops += ["alert " + x, "del " + x]
+                        elif ev == "recv": ops += ["flag %s E1" % x, "del " + x]
+                        elif ev == "errupd": ops += ["flag %s E1" % x, "upd " + x]
+                        else: ops += ["del " + x]
+                        probe = lambda y: [newc(r, y, m="00", **base), "sid %s #0" % y, "chr " + y]
+                        ops += probe("D") + ["del D"]                       # while the other holders are open
+                        for o in order:
+                            ops += ["del " + o] + probe("E") + ["del E"]    # after each further close
+                        if ev == "errupd": ops += ["del " + x]
+                        ops += ["tick 1000"] + probe("F") + ["del F"] + probe("D")   # everything closed; twice
+                        C.append("c " + " ; ".join(ops))
     return C
 
 def random_case(r, nops):
@@ -275,7 +320,8 @@ class Spec:
         n = 0
         for cmd, seg in zip(toks, segs):
             a = cmd.split(); d = parse_op(seg)
-            if d is None: break
+            if d is None:
+                ck.count("oracle:unparsed-op"); break
             if d.get("list", []) is None:      # corrupted list
                 ck.spec_violation("list-corrupt", "the chronological list of the session cache is corrupted (a node linked twice / unlinked twice)",
                                   {"harness": harness, "case": case, "at_op": cmd, "observed": seg[:300]})
@@ -291,7 +337,7 @@ class Spec:
         if op == "tick": self.now += int(a[1]); return 0
         if op == "new":
             kv = dict(t.split("=") for t in a[2:])
-            self.cfg[x] = {"ver": {31: (3, 1), 32: (3, 2), 33: (3, 3), 34: (3, 4)}[int(kv.get("v", 33))], "ems": int(kv.get("e", 0)), "ms": kv.get("m", "00") * 4}
+            self.cfg[x] = {"ver": {31: (3, 1), 32: (3, 2), 33: (3, 3), 34: (3, 4)}[int(kv.get("v", 33))], "ems": int(kv.get("e", 0)), "ms": kv.get("m", "00") * 4, "suite": kv.get("s", "c02f")}
             self.holds[x] = None; self.presented[x] = None
             return 0
         if op == "sid":
@@ -339,6 +385,16 @@ class Spec:
                 if h is not None and h in self.issued and (op == "alert" or a[2] == "1"): self.issued[h]["valid"] = False
                 self.holds[x] = None
             return 0
+        if op == "t13v":
+            kv = dict(t.split("=") for t in a[2:]); m = re.match(r"t13v=(-?\d+):(\d+)", d["raw"])
+            if not m or int(m.group(1)) == -100 or int(kv["life"]) > 604800: return 0     # RFC 8446 4.6.1: lifetime <= 7 days; larger ones (psDiffMsecs saturates at 24.8 days) are compared with the model only
+            rc = int(m.group(1)); cfgv = self.cfg[x]["ver"]; age = int(kv["age"]); life = int(kv["life"])
+            ok = ({31: (3, 1), 32: (3, 2), 33: (3, 3), 34: (3, 4)}[int(kv["v"])] == cfgv and kv["s"] == self.cfg[x].get("suite") and 0 <= age and age // 1000 <= life)
+            if rc == 0 and not ok:
+                self.viol(ck, "tls13-params-accepted-" + ("expired" if age // 1000 > life or age < 0 else "mismatch"),
+                          "tls13ValidateSessionParams accepted ticket parameters that are %s" % ("%d ms old with a sealed lifetime of %d s" % (age, life) if (age // 1000 > life or age < 0) else "of another version / suite"),
+                          case, " ".join(a), d, harness, "handshake_failure")
+            return 1
         if op == "kadd":
             if d["rc"] == 0: self.keys.append(a[1].split("=")[1])
             return 0
@@ -407,6 +463,77 @@ def table_frame_check(ck, case, out, harness):
         prev = tbl
 
 
+# ---------------------------------------------------------------- search: from a state disagreement to a property-level failure
+VTOK = {(3, 1): 31, (3, 2): 32, (3, 3): 33, (3, 4): 34}
+
+def followups(case, impl_line, model_line):
+    """The cache state of library and model differs after op k of `case`.  Such a difference matters for the
+    property only through later resumption decisions, so extend the history up to and including op k by resume
+    attempts for every identifier (and ticket) that occurs in either dump so far - with the version / EMS use
+    recorded for it - on a fresh connection: at once, after the other connections were closed (in two orders),
+    and a second time (a first attempt may itself change counts)."""
+    toks = case[2:].split(" ; ")
+    a, b = split_ops(impl_line), split_ops(model_line)
+    k = next((j for j in range(min(len(a), len(b))) if a[j] != b[j]), None)
+    if k is None or k >= len(toks): return []
+    prefix = toks[:k + 1]
+    ids = {}                                         # id hex -> (ver, ems, suite)
+    for line in (a[:k + 1], b[:k + 1]):
+        for seg in line:
+            d = parse_op(seg)
+            if not d or "tbl" not in d: continue
+            for e in d["tbl"].values():
+                if e["id"][8:] != "0" * 56:
+                    cur = ids.get(e["id"])
+                    if cur is None or e["cipher"] != "N":
+                        ids[e["id"]] = (e["ver"], e["ems"], e["cipher"] if e["cipher"] != "N" else (cur[2] if cur else "c02f"))
+    tickets = sorted(set(int(t.split("j=")[1]) & 15 for t in prefix if t.startswith("mkt ") and "j=" in t))
+    used = sorted(set(t.split()[1] for t in prefix if len(t.split()) > 1 and t.split()[1] in CONNS and len(t.split()[1]) == 1))
+    out = []
+    def probe(y, idhex, cfg):
+        ver, ems, suite = cfg
+        return ["new %s v=%d s=%s e=%d m=00 r=00" % (y, VTOK.get(ver, 33), suite if suite != "N" else "c02f", 1 if ems else 0), "sid %s %s" % (y, idhex), "chr " + y]
+    for idhex, cfg in sorted(ids.items()):
+        out.append(prefix + probe("F", idhex, cfg))
+        closes = ["del " + x for x in used if x != "F"]
+        for order in (closes, closes[::-1]):
+            out.append(prefix + order + probe("F", idhex, cfg) + ["del F"] + probe("F", idhex, cfg))
+        out.append(prefix + probe("F", idhex, cfg) + ["del F"] + probe("E", idhex, cfg))
+    for j in tickets:
+        out.append(prefix + ["new F v=33 s=c02f e=1 m=00 r=00", "unl F $%d" % j, "chr F"])
+        out.append(prefix + ["new F v=33 s=c02f e=0 m=00 r=00", "unl F $%d" % j, "chr F"])
+    return ["c " + " ; ".join(o) for o in out]
+
+def search_from_disagreements(ck, h_real, drv, cases, dis, impl, model, nchecked, have_ref):
+    """Impl against Spec on the follow-up histories of every disagreeing case (bounded); a follow-up whose prefix
+    is a wild sequence (the Python oracle's holder bookkeeping is only exact for realistic lifecycles) is reported
+    only if the proven model also refuses what the library accepted."""
+    fu = []; origin = []
+    for i in dis[:40]:
+        if i >= len(impl) or i >= len(model): continue
+        for f in followups(cases[i], impl[i], model[i])[:60]:
+            fu.append(f); origin.append(i)
+    if not fu: return 0
+    rc, real, err = ck.run_lines(h_real, fu)
+    rc2, mod, err2 = ck.run_lines(drv, fu)
+    found = 0
+    for f, i, o, m in zip(fu, origin, real, mod):
+        verdicts = []
+        class Collector:
+            def spec_violation(self_, sig, what, replay): verdicts.append((sig, what, replay)); return "new"
+            def count(self_, *a): pass
+        Spec().check_case(Collector(), f, o, "h_cache (real AES-CBC/HMAC), follow-up of a model/implementation cache-state disagreement")
+        if not verdicts: continue
+        if i >= nchecked:
+            io, mo = split_ops(o), split_ops(m)
+            di, dm = (parse_op(io[-1]) if io else None), (parse_op(mo[-1]) if mo else None)
+            if not (di and dm and di["rc"] == 0 and dm["rc"] != 0): continue
+        for sig, what, replay in verdicts:
+            replay = dict(replay, derived_from_case=cases[i][:2000], model_says=(split_ops(m)[-1][:300] if m else None))
+            ck.spec_violation(sig, what, replay); found += 1
+    ck.cov["followup_histories"] = len(fu)
+    return found
+
 # ---------------------------------------------------------------- live sessions (Impl vs Spec only)
 def live_scripts():
     S = []
@@ -441,6 +568,23 @@ def live_scripts():
     L("tls13-psk-rotated-kept", t13 % "rekey add=77 ; ")
     # fatal alert on a resumed connection (client Finished damaged in flight), then replay of the id
     L("alert-on-resumed", "new cv=3 sv=3 seed=1 ; hs ; markfirst ; res? ; closeall ; new cv=3 sv=3 resume=1 seed=2 keepkeys=1 ; step c2s 1 ; step s2c 3 ; step c2s 1 ; xor c2s 10 01 ; step c2s 1 ; hs ; closeall ; new cv=3 sv=3 resume=1 seed=3 keepkeys=1 ; hs ; res?")
+    # SHARED cache entries: the original connection and resumption(s) of it are open at the same time; one of them
+    # is hit by a fatal alert (received: a damaged server record makes the client send one; sent: a damaged client
+    # record makes the server send one) and deleted; the id is then presented again
+    first = "new cv=3 sv=3 seed=1 ; hs ; markfirst ; park 0 ; new cv=3 sv=3 resume=1 seed=2 keepkeys=1 ; hs ; res? ; "
+    recv = "app s 6161 ; xor s2c 10 01 ; step s2c 1 ; step c2s 1 ; sflags ; closeall ; "
+    sent = "app c 6161 ; xor c2s 10 01 ; step c2s 1 ; sflags ; closeall ; "
+    again = "new cv=3 sv=3 resume=1 seed=%d keepkeys=1 ; hs ; res?"
+    L("shared-recv-alert-on-resumed", first + recv + again % 3)
+    L("shared-sent-alert-on-resumed", first + sent + again % 3)
+    L("shared-recv-alert-on-resumed-then-all-closed", first + recv + "unpark 0 ; closeall ; " + again % 3)
+    L("shared-recv-alert-on-original", first + "park 1 ; unpark 0 ; " + recv + again % 3)
+    L("shared-sent-alert-on-original", first + "park 1 ; unpark 0 ; " + sent + again % 3)
+    L("shared-recv-alert-on-original-then-all-closed", first + "park 1 ; unpark 0 ; " + recv + "unpark 1 ; closeall ; " + again % 3)
+    L("shared3-recv-alert-on-third", first + "park 1 ; new cv=3 sv=3 resume=1 seed=4 keepkeys=1 ; hs ; res? ; " + recv + again % 5)
+    L("shared3-recv-alert-then-others-closed", first + "park 1 ; new cv=3 sv=3 resume=1 seed=4 keepkeys=1 ; hs ; res? ; " + recv + "unpark 1 ; closeall ; unpark 0 ; closeall ; " + again % 5)
+    L("shared-plain-close", first + "closeall ; " + again % 3 + " ; legit")
+    L("shared3-plain-close", first + "park 1 ; new cv=3 sv=3 resume=1 seed=4 keepkeys=1 ; hs ; res? ; closeall ; unpark 1 ; closeall ; " + again % 5 + " ; legit")
     # a client holding a valid ticket of its own presents another session's id next to it; then resumes that id with its own secret
     L("foreign-id-with-ticket", "new cv=3 sv=3 ticket=1 seed=1 ; hs ; closeall ; stash 0 ; new cv=3 sv=3 seed=2 keepkeys=1 ; hs ; markfirst ; closeall ; tbl ; stash 1 ; unstash 0 ; idfrom 1 ; "
       "new cv=3 sv=3 ticket=1 resume=1 seed=3 keepkeys=1 ; hs ; closeall ; tbl ; tkdrop ; new cv=3 sv=3 resume=1 seed=4 keepkeys=1 ; hs ; res?")
@@ -468,7 +612,7 @@ def check_live(ck, name, script, out):
     res = [s for s in segs if s.strip().startswith("res:")]
     tbls = [s for s in segs if s.strip().startswith("tbl")]
     if not res:
-        ck.spec_violation("live-harness", "live scenario produced no verdict", {"harness": "h_cache", "case": script, "observed": out[:400]}); return
+        ck.spec_violation("live-harness", "live scenario produced no verdict", {"harness": "h_cache", "scenario": name, "case": script, "observed": out[:400]}); return
     m = re.search(r"res:c=(-?\d),s=(-?\d),mseq=(-?\d),first=(-?\d),sidlen=(-?\d+),v13=(\d)", res[-1])
     cr, sr, mseq, first = int(m.group(1)), int(m.group(2)), int(m.group(3)), int(m.group(4))
     hs = [s for s in segs if s.strip().startswith("hs:")][-1].strip()
@@ -479,15 +623,15 @@ def check_live(ck, name, script, out):
         if not (ok_hs and cr == 1 and sr == 1 and mseq == 1 and first == 1):
             sig = "live-" + name + "-not-resumed"
             ck.spec_violation(sig, "live: the legitimate resumption in scenario %s did not resume with the original secret (%s, %s) - another connection damaged the cached session" % (name, hs, res[-1].strip()),
-                              {"harness": "h_cache", "case": script, "observed": out[-600:]})
+                              {"harness": "h_cache", "scenario": name, "case": script, "observed": out[-600:]})
     else:
         if ok_hs and (sr == 1 or cr == 1):
             ck.spec_violation("live-" + name + "-resumed", "live: scenario %s ended in a RESUMED session (server resumed=%d, client=%d, same secret as first session=%d)" % (name, sr, cr, first),
-                              {"harness": "h_cache", "case": script, "observed": out[-600:], "expected_by_spec": "full handshake or failure"})
+                              {"harness": "h_cache", "scenario": name, "case": script, "observed": out[-600:], "expected_by_spec": "full handshake or failure"})
     if name.startswith("foreign-id") and len(tbls) >= 2:
         if tbls[0].strip() != tbls[1].strip():
             ck.spec_violation("live-" + name + "-entry-modified", "live: a connection that only echoed another session's id changed that session's cache entry when it closed",
-                              {"harness": "h_cache", "case": script, "before": tbls[0].strip()[:300], "after": tbls[1].strip()[:300]})
+                              {"harness": "h_cache", "scenario": name, "case": script, "before": tbls[0].strip()[:300], "after": tbls[1].strip()[:300]})
 
 
 # ---------------------------------------------------------------- run
@@ -520,7 +664,7 @@ def run(ck):
     ck.assumptions += ["Hunf (ticket theorems): a MAC tag that verifies under a server key was produced by the server for exactly that byte string",
                        "the clock (psGetTime) does not go backwards within the life of the process; ticket timestamps are seconds of that clock",
                        "a connection object is created zeroed (matrixSslNewServerSession) - ONew in the model",
-                       "TLS 1.3 PSK tickets (tls13Resume.c) are not modelled: they are judged by the live spec oracle only (round trip, byte edits of the ticket, wrong resumption secret, lifetime 360 s, key rotation)"]
+                       "TLS 1.3 PSK tickets: only the handling of the sealed parameters (version, suite, lifetime, issue time) in tls13ValidateSessionParams is modelled and compared; sealing (AES-GCM), PSK lookup and binders are judged by the live spec oracle only (round trip, byte edits of the ticket, wrong resumption secret, lifetime 360 s, key rotation)"]
     R = ck.build_repo()
     have_ref = "sessionCacheRef" in open(os.path.join(R, "matrixssl/matrixssllib.h")).read()
     ck.regen([("consts.sh",)])
@@ -537,6 +681,7 @@ def run(ck):
     cases = corpus_cases()
     ncorp = len(cases)
     cases += structured_cases(r)
+    cases += shared_entry_cases(r)
     nstruct = len(cases) - ncorp
     for _ in range(ck.budget(120, 4000)):
         cases.append(lifecycle_case(r, r.choice([20, 40, 70, 110])))
@@ -545,7 +690,7 @@ def run(ck):
     nchecked = len(cases)                     # cases above follow realistic connection lifecycles: also judged by the spec oracle
     for _ in range(ck.budget(120, 4000)):
         cases.append(random_case(r, r.choice([12, 25, 40, 70])))   # wild sequences (objects reused after delete, ids re-parsed on holders): model correspondence only
-    ck.rules.append("operation sequences over <= 6 fabricated server connections: %d structured cases (every truncation length 1..31 of an issued id, zero-extended prefixes, one flipped bit at each of the 32 id positions, clock jumps LIFE-1/LIFE/LIFE+1 and around 2^31/2^32 ms, 20 version x EMS combinations, fatal alerts on registrant / on a resumed sharer / error flag at close followed by replays, cache filled to 31/32/33/40 sessions with the first one open or closed, all slots in use, double and unheld releases, client-chosen ids on ticket-resumed and TLS 1.3 connections, ticket round trip / sampled byte edits / truncation / extension / foreign key / expiry at the second / key rotation and deletion) + interleaved realistic connection lifecycles over six connection objects (20-110 ops: hello with an id from a bank of issued ids - possibly truncated, flipped, zero-extended - or with a ticket and a foreign id, full handshake, optional fatal alert, close; clock jumps) + fill runs of 35-80 sessions with interleaved resumptions (these three groups are also judged by the spec oracle) + wild random sequences (objects reused after delete, ids re-parsed on holders; model correspondence only); a case is non-trivial when at least one resumption decision is taken" % nstruct)
+    ck.rules.append("operation sequences over <= 6 fabricated server connections: %d structured cases (every truncation length 1..31 of an issued id, zero-extended prefixes, one flipped bit at each of the 32 id positions, clock jumps LIFE-1/LIFE/LIFE+1 and around 2^31/2^32 ms, 20 version x EMS combinations, fatal alerts on registrant / on a resumed sharer / error flag at close followed by replays, SHARED entries (2 or 3 connections - registrant + resumed - holding one entry) x the event hitting each of them (fatal alert sent, fatal alert received / local error then delete, error seen by an update while open, plain close) x every delete order of the others, with resume attempts while the others are open, after each close and after all closed, cache filled to 31/32/33/40 sessions with the first one open or closed, all slots in use, double and unheld releases, client-chosen ids on ticket-resumed and TLS 1.3 connections, ticket round trip / sampled byte edits / truncation / extension / foreign key / expiry at the second / key rotation and deletion) + interleaved realistic connection lifecycles over six connection objects (20-110 ops: hello with an id from a bank of issued ids - possibly truncated, flipped, zero-extended - or with a ticket and a foreign id, full handshake, optional fatal alert, close; clock jumps) + fill runs of 35-80 sessions with interleaved resumptions (these three groups are also judged by the spec oracle) + wild random sequences (objects reused after delete, ids re-parsed on holders; model correspondence only); a case is non-trivial when at least one resumption decision is taken" % nstruct)
     rc, impl, err = ck.run_lines(h_toy, cases)
     rc2, model, err2 = ck.run_lines(drv, cases)
     if rc != 0: ck.notes.append("h_cache (toy) exit code %d: %s" % (rc, err[-300:]))
@@ -567,6 +712,9 @@ def run(ck):
             if d and d["op"] in ("chr", "res", "unl"):
                 ck.count("%s:%s" % (d["op"], "ok" if d["rc"] == 0 else "rc%d" % d["rc"]))
     ck.cov["spec_oracle_decisions"] = ndec
+    if dis:
+        nf = search_from_disagreements(ck, h_real, drv, cases, dis, impl, model, nchecked, have_ref)
+        ck.notes.append("search: %d property-level failures found on follow-up histories derived from the %d disagreeing cases" % (nf, len(dis)))
     # live sessions
     scripts = live_scripts()
     rc4, lout, err4 = ck.run_lines(h_real, [s for _, s in scripts])
@@ -592,11 +740,14 @@ def replay(ck, path):
     h = ck.cc("h_cache.c", wraps=BASE_WRAPS, extra=["-no-pie"], defines=["HAVE_CACHE_REF"] if have_ref else [])
     cs = rp.get("cases") or [rp["case"]]
     rc, out, err = ck.run_lines(h, cs)
+    out = merge_trace_lines(out) if cs and cs[0].startswith("live") else out
     for c, o in zip(cs, out):
         print("case:", c)
         for cmd, seg in zip((c[2:] if c.startswith("c ") else c[5:]).split(" ; "), split_ops(o)):
             print("   %-40s -> %s" % (cmd, re.sub(r" L\[[0-9,]*\]", "", seg.strip())[:300]))
         if c.startswith("c "):
             Spec().check_case(ck, c, o, "h_cache"); table_frame_check(ck, c, o, "h_cache")
+        else:
+            check_live(ck, rp.get("scenario", ""), c, o)
     for v in ck.violations:
         print("spec verdict:", v["what"])
